@@ -357,10 +357,9 @@ fn record(out: &str, a: &Args) {
         let ver = rng.range(2, 5);
         let maxops = if ver >= 4 { *rng.pick(&[1u64, 1, 2, 4]) } else { 1 };
         let mil = *rng.pick(&[1u64, 1, 2, 4]);
-        // line_range < 128: LineProgram::new mis-evaluates its assertion for larger ranges (reported by the
-        // model-based part of the check); line_base + line_range > 0 as documented
-        let lbase = -(rng.below(100) as i64);
-        let lrange = ((1 - lbase) as u64 + rng.below(27)).min(127);
+        // any line_base <= 0 and line_range with line_base + line_range > 0
+        let lbase = -(rng.below(129) as i64);
+        let lrange = ((1 - lbase) as u64 + rng.below(256)).min(255);
         let asz = *rng.pick(&[4u64, 8, 8]);
         let pv = json!({"ver": ver, "fmt": if rng.chance(1, 4) {64} else {32}, "asz": asz, "le": true, "mil": mil,
                         "maxops": maxops, "dis": rng.chance(1, 2), "lbase": lbase, "lrange": lrange});
@@ -390,10 +389,8 @@ fn record(out: &str, a: &Args) {
                         }
                     }
                     1 => {
-                        // only forward, and only when the operation index is 0 (see notes: VLIW finding)
-                        if opi != 0 {
-                            continue;
-                        }
+                        // only forward; set_address resets the tracked operation index
+                        opi = 0;
                         inseq = true;
                         // never backwards, never beyond the address size
                         let new = cur_base.wrapping_add(off).saturating_add(rng.below(1 << 20));
